@@ -5,6 +5,7 @@ import (
 	"fmt"
 	"net"
 	"net/http"
+	"os"
 	"sync"
 	"sync/atomic"
 	"time"
@@ -71,6 +72,11 @@ func StartProxy(o ProxyOpts) (*Proxy, error) {
 	}
 	if o.Cfg != nil {
 		o.Cfg(cfg)
+	}
+	// VERIF_HANDLER=1: serve through martian's http.Handler variant (proxy_handler.go) instead of
+	// Proxy.Serve; MITM is not supported by that variant
+	if os.Getenv("VERIF_HANDLER") == "1" && cfg.MITM == nil {
+		cfg.TestingHTTPHandler = true
 	}
 	rt, err := forwarder.NewHTTPTransport(tc)
 	if err != nil {
